@@ -100,6 +100,7 @@ type c20Worker struct {
 	evals, nontrivial         int
 	overstrip, extraBad       int
 	badFollowed               int
+	slow                      []string
 	leaksChecked, trustedSeen int
 	byAPI                     map[string]int
 }
@@ -193,6 +194,7 @@ func c20SetCreds(req *Request, hdr string) {
 }
 
 func (w *c20Worker) run(b *c20Beh, call c20Call) {
+	t0 := time.Now()
 	w.net.Reset()
 	hops := b.Hops
 	w.net.SetRespond(func(rq *clReq) clResp {
@@ -250,6 +252,9 @@ func (w *c20Worker) run(b *c20Beh, call c20Call) {
 			err = w.cl.DoRedirects(&req, &resp, b.Init.Max)
 		}
 		status, body = resp.StatusCode(), string(resp.Body())
+	}
+	if d := time.Since(t0); d > 2*time.Second {
+		w.slow = append(w.slow, fmt.Sprintf("%v %s/%s/%s %s err=%v", d.Round(time.Millisecond), call.api, call.hdr, call.src, b.chainSig(), err))
 	}
 	w.judge(b, call, useHC, err, status, body)
 }
@@ -439,9 +444,9 @@ func c20Calls(b *c20Beh, quick bool, idx int) []c20Call {
 	// requests with a body: the way the caller supplied it rotates over chains and calls
 	if m := b.Init.Method; m == "POST" || m == "PUT" || m == "PATCH" {
 		// a body stream can be sent once only (a resend would announce a body that never
-		// comes): streams are used where the body is not sent again, i.e. no redirect is
-		// followed or the first one is a 303
-		streamOK := len(b.Sent) <= 1 || b.Hops[0].Status == 303
+		// comes): streams are used where the body cannot be sent again, i.e. the server issues
+		// no redirect or the first one is a 303
+		streamOK := len(b.Hops) == 0 || b.Hops[0].Status == 303
 		for k := range calls {
 			j := (idx + k) % len(c20BodySources)
 			for !streamOK && strings.HasPrefix(c20BodySources[j], "stream") {
@@ -519,6 +524,7 @@ func TestVerifC20Redirect(t *testing.T) {
 		tot.overstrip += w.overstrip
 		tot.extraBad += w.extraBad
 		tot.badFollowed += w.badFollowed
+		tot.slow = append(tot.slow, w.slow...)
 		tot.leaksChecked += w.leaksChecked
 		tot.trustedSeen += w.trustedSeen
 		for k, v := range w.byAPI {
@@ -530,6 +536,6 @@ func TestVerifC20Redirect(t *testing.T) {
 	}
 	vfStat(tot.evals, tot.nontrivial, vfRec{"chains": len(behs), "requests_judged": tot.leaksChecked,
 		"requests_to_trusted_hosts": tot.trustedSeen, "overstrip_requests": tot.overstrip,
-		"extra_requests_after_bad_url": tot.extraBad, "bad_url_followed_without_error": tot.badFollowed, "by_api": tot.byAPI})
+		"extra_requests_after_bad_url": tot.extraBad, "bad_url_followed_without_error": tot.badFollowed, "calls_slower_than_2s": tot.slow, "by_api": tot.byAPI})
 	vfDone()
 }
